@@ -65,6 +65,8 @@ int main(int argc, char **argv) {
                         "var n; array a[n]; proc main() is skip", "proc p(proc q) is q() proc main() is p(main)", "proc main() is 0(70000 + 70001)", "proc main() is 0(70000 - 70000)", "val k = 70000; proc main() is { 1(k, 0); 1(k, 0); 0(k) }",
                         "proc lab0() is skip proc main() is lab0()", "proc main() is stop", "proc main() is skip", "func f() is return 1 proc main() is 0(f() + f())"})
     srcs.push_back({"unusual", s, false});
+  // string literals of every length 0..40 (packing into words, buffers on stack vs heap)
+  for (int n = 0; n <= 40; n++) { std::string lit(n, 'a'); for (int k = 0; k < n; k++) lit[k] = 'a' + k % 26; srcs.push_back({"string-length", "proc p(array s, array t) is 0(s[0] + t[0])\nproc main() is p(\"" + lit + "\", \"" + lit.substr(0, n / 2) + "\")\n", false}); }
   for (const char *s : {"BR foo\n", "LDAC 0\nb\nLDAC b\n", "a\na\nBR a\n", "PROC p\nFUNC p\nBR p\n", "LDAC 99999999999\n", "DATA -1\nDATA 4294967295\n", "BR La\nLa\nLDAC 0\nDATA 5\n", "LDAP x\nLDAC 0\nLDAC 0\nx\nDATA 1\nLDAM x\n", "", "# c\n", "OPR LDAC\n"})
     srcs.push_back({"unusual-asm", s, true});
   // every single-token edit (delete, duplicate, swap, replace by every token / identifier of the program / hostile literal) of the semantic seed program
